@@ -77,7 +77,8 @@ CHECKS.update({
  "C11": dict(cat="model_checking", tech="trace validation (impl->spec): recorded BatchEncoder / apply_galois_plain behaviour checked by TLC against spec/Batch.tla (slots = evaluations at psi^(3^i), psi^(-3^i))",
    text="For 14 (quick) / 27 (thorough) batching-compatible (N, t) with N = 2..64, t < 2^15: all N unit vectors, extreme, empty, short and random vectors encoded and decoded, arbitrary short polynomials decoded, "
         "sums and negacyclic products of encoder outputs act slot-wise, the automorphism the library associates with every step -(N/2-1)..N/2-1 rotates both rows left by the step, the column swap exchanges the rows, "
-        "coefficient encoding reduces modulo t.", ref="DESIGN.md 4/C11", note="Trusted: TLC, spec/Batch.tla. Plain moduli above 2^15 (up to 60 bits) and N > 64 are not covered (native TLC integers)."),
+        "coefficient encoding reduces modulo t. For 6 (quick) / 15 (thorough) plain moduli of 20..60 bits (N up to 64 / 1024): encode/decode inverse, decode a ring homomorphism on sums and negacyclic products formed "
+        "by the harness in 128-bit arithmetic, rotations / column swap permute the slots (BigNat).", ref="DESIGN.md 4/C11", note="Trusted: TLC, spec/Batch.tla. For plain moduli above 2^15 the slot order is fixed only through the rotation semantics (psi is not recomputed)."),
  "C18": dict(cat="model_checking", tech="TLC enumerates delivery orders and (premature) finish attempts over spec/Multiparty.tla (Agreement, NoEarlyFinish); every order replayed with real Participants for each protocol",
    text="All delivery orders of one broadcast round for 2 and 3 parties (all-to-all and star topology), sampled for 4-6 parties, with at most one premature finish, replayed for public-key generation, secret-key revelation, "
         "two-round relinearization keys, collective decryption, key switch, public-key switch, cipher->shares and shares->cipher over BFV, BGV and CKKS: premature finish refused, outputs byte-identical across parties, "
